@@ -75,11 +75,14 @@ func genGW(seed uint64, tier string, prop string) Case {
 		sw := int64(r.intn(nsw))
 		var pick int
 		if prop == "C05" {
-			pick = r.pick(50, 6, 4, 8, 0, 0, 0, 0, 6, 5, 4, 0, 0, 0, 9, 6, 2)
+			pick = r.pick(50, 6, 4, 8, 0, 0, 0, 0, 6, 5, 4, 0, 0, 0, 9, 6, 2, 10)
 		} else {
-			pick = r.pick(26, 8, 5, 8, 4, 4, 4, 4, 7, 5, 4, 3, 3, 2, 5, 3, 5)
+			pick = r.pick(26, 8, 5, 8, 4, 4, 4, 4, 7, 5, 4, 3, 3, 2, 5, 3, 5, 4)
 		}
 		switch pick {
+		case 17:
+			// a metadata-only PatchTreasures on a msgpack-bodied record (the body is rewritten with the value it has)
+			c.Ops = append(c.Ops, Op{K: "pmeta", A: []int64{sw, key(), int64(r.intn(6)), int64(1 + r.intn(3))}})
 		case 0:
 			kind := int64(r.intn(len(valueKinds)))
 			meta := int64(r.intn(32))
@@ -428,6 +431,68 @@ func (g *gwRun) step(i int, op Op) *Result {
 			ensure()[key] = n
 			g.stored[kind] = true
 		}
+	case "pmeta":
+		key := keyName(op.A[1])
+		old := m[key]
+		if old == nil || old.Kind != "bytes" || len(old.B) < 3 || old.B[0] != 0xC7 || old.B[1] != 0x00 {
+			// make it a body record first (Set of the msgpack body, no metadata), then patch it
+			val := genValue("bytes", 4)
+			if old != nil && old.Kind == "slice" {
+				return nil
+			}
+			n := applySet(old, val, 0, 0, g.now())
+			if _, err := cl.set(sw, []*hydrapb.KeyValuePair{toKV(key, val)}, true, true); err != nil || cl.hung != "" {
+				return nil
+			}
+			ensure()[key] = n
+			old = n
+			g.stored["bytes"] = true
+		}
+		g.families["patch"] = true
+		meta := &hydrapb.PatchMeta{}
+		n := old.clone()
+		now := g.now()
+		switch op.A[2] {
+		case 0:
+			by := fmt.Sprintf("patcher%d", op.A[3])
+			meta.SetUpdatedBy = &by
+			n.UpdatedBy = by
+		case 1:
+			e := now + op.A[3]*int64(time.Hour)
+			meta.SetExpiredAt = ts(e)
+			n.ExpiredAt = e
+		case 2:
+			meta.ClearExpiredAt = true
+			n.ExpiredAt = 0
+		case 3:
+			e := now - op.A[3]*int64(time.Hour)
+			meta.SetExpiredAt = ts(e)
+			n.ExpiredAt = e
+		case 4:
+			meta.SetUpdatedAt = true
+			n.UpdatedAt = now
+		default:
+			by := fmt.Sprintf("patcher%d", op.A[3])
+			meta.SetUpdatedBy = &by
+			meta.ClearExpiredAt = true
+			n.UpdatedBy, n.ExpiredAt = by, 0
+		}
+		var resp *hydrapb.PatchTreasuresResponse
+		var err error
+		cl.call("PatchTreasures", func() {
+			resp, err = cl.srv.gw.PatchTreasures(ctxBg, &hydrapb.PatchTreasuresRequest{IslandID: cl.island, SwampName: sw,
+				Patches: []*hydrapb.TreasurePatch{{Key: key, Ops: []*hydrapb.PatchOp{{Op: hydrapb.PatchOp_SET, Path: "n", Value: []byte{0x01}}}, Meta: meta}}})
+		})
+		if cl.hung != "" {
+			return nil
+		}
+		if err != nil || resp == nil || len(resp.Results) != 1 {
+			return g.fail("patch_error", "op %d: PatchTreasures(%s,%s, meta %v) returned %v / %v", i, sw, key, meta, resp, err)
+		}
+		if st := resp.Results[0].Status; st != hydrapb.PatchResult_PATCHED {
+			return g.fail("patch_status", "op %d: PatchTreasures(%s,%s) on an existing msgpack body answered %v, want PATCHED", i, sw, key, st)
+		}
+		ensure()[key] = n
 	case "get":
 		g.families["get"] = true
 		key := keyName(op.A[1])
